@@ -52,6 +52,11 @@ import (
 
 const c12FindingStableRejoin = "C12-stable-rejoin-subscription-change"
 
+const (
+	c12FindingMetaErr = "C12-metadata-error-assigns-partition-zero"
+	c12FindingGrowth  = "C12-leader-rejoin-after-partition-growth"
+)
+
 const c12Group = "vfg"
 
 var c12TopicNames = []string{"ta", "tb", "tc", "tu"} // "tu" is never created (unknown topic)
@@ -103,6 +108,8 @@ type c12Env struct {
 
 type c12Opts struct {
 	excludeStableRejoin bool
+	excludeMetaFault    bool   // listed finding: do not make store.Metadata fail during the leader's sync
+	excludeGrowth       bool   // listed finding: leader re-join after partition growth keeps the old partition counts
 	focus               string // stop the script at the first violation of this property ("" = any)
 }
 
@@ -127,8 +134,10 @@ type c12GenRec struct {
 	leader       string
 	leaderSynced bool
 	covered      bool
-	armed        bool // all members joined this generation and the leader's sync succeeded ...
-	armedEvents  int  // ... when the membership-event counter had this value
+	pendSnap     map[string]int // partition counts at the leader's successful re-join in Stable ...
+	pendBy       string         // ... applied when that leader syncs
+	armed        bool           // all members joined this generation and the leader's sync succeeded ...
+	armedEvents  int            // ... when the membership-event counter had this value
 }
 
 type c12WB struct {
@@ -148,6 +157,7 @@ type c12Result struct {
 	feats    map[string]bool
 	classes  map[string]int
 	excluded int
+	excl     map[string]int // per finding id: generated cases steered away / not judged
 	maxLive  int
 	rejects  int
 	fullGens int // generations with >=2 members whose assignment was observed completely
@@ -557,10 +567,40 @@ func (r *c12Run) doJoin(cl *c12Client, sendID string, sub []string, sess, reb in
 			r.res.okJoins2++
 		}
 		r.rec(resp.Generation).leader = resp.LeaderID
+		// the leader re-joined a Stable group (this is how clients ask for newly created partitions
+		// to be assigned) and was told the round is complete in the same generation: the assignment
+		// it is about to fetch must cover the partitions that exist now
+		if g := r.rec(resp.Generation); pre.exists && pre.phase == groupStateStableRebalanceNone(pre) && resp.MemberID == resp.LeaderID && resp.Generation == pre.gen && g.haveSnap {
+			grown := false
+			for t, n := range r.parts {
+				if n > g.snap[t] {
+					for id := range post.members {
+						if c := r.clientByID(id); c != nil && c12SetOf(c.sub)[t] {
+							grown = true
+						}
+					}
+				}
+			}
+			if grown {
+				if r.opts.excludeGrowth {
+					r.res.excl[c12FindingGrowth]++
+				} else {
+					g.pendSnap = map[string]int{}
+					for t, n := range r.parts {
+						g.pendSnap[t] = n
+					}
+					g.pendBy = cl.id
+					r.class("c12/leader-rejoin-after-growth")
+				}
+			}
+		}
 	}
 	r.observe(post)
 	return cl
 }
+
+// groupStateStableRebalanceNone only exists to keep the condition above readable.
+func groupStateStableRebalanceNone(c12WB) groupPhase { return groupStateStable }
 
 func c12Short(id string) string {
 	if len(id) > 8 {
@@ -719,6 +759,10 @@ func (r *c12Run) doSync(cl *c12Client, gen int32) {
 	g := r.rec(gen)
 	if !g.haveSnap {
 		g.snap, g.haveSnap = snap, true
+	}
+	if g.pendSnap != nil && g.pendBy == cl.id {
+		g.snap, g.pendSnap, g.pendBy = g.pendSnap, nil, ""
+		r.class("c12/assignment-judged-against-grown-topic")
 	}
 	if g.leader == cl.id || post.leader == cl.id {
 		g.leaderSynced = true
@@ -1137,7 +1181,11 @@ func (r *c12Run) step(a c12Act) {
 		}
 	case c12KLeave:
 		if cl := r.pick(a.Who); cl != nil {
-			r.doLeave(cl)
+			if a.GenOff == 1 {
+				r.doLeaveV4(cl)
+			} else {
+				r.doLeave(cl)
+			}
 		}
 	case c12KCommit:
 		if cl := r.pick(a.Who); cl != nil {
@@ -1315,7 +1363,15 @@ func (r *c12Run) round(a c12Act) {
 	}
 	if a.TMode%4 != 3 { // sometimes followers go first
 		if lc := r.clientByID(w.leader); lc != nil {
-			r.doSync(lc, lc.ownGen)
+			if a.GenOff == 1 && r.opts.excludeMetaFault {
+				r.res.excl[c12FindingMetaErr]++
+			}
+			if a.GenOff == 1 && !r.opts.excludeMetaFault {
+				// the topic-metadata lookup of the store fails once while the leader syncs
+				r.metaFaulted(func() { r.doSync(lc, lc.ownGen) })
+			} else {
+				r.doSync(lc, lc.ownGen)
+			}
 		}
 	}
 	if a.Part%4 == 1 {
@@ -1335,7 +1391,7 @@ func (r *c12Run) round(a c12Act) {
 }
 
 func c12Execute(t *testing.T, env c12Env, opts c12Opts) *c12Result {
-	res := &c12Result{viol: map[string][]string{}, feats: map[string]bool{}, classes: map[string]int{}}
+	res := &c12Result{viol: map[string][]string{}, feats: map[string]bool{}, classes: map[string]int{}, excl: map[string]int{}}
 	rand.Seed(env.Seed) // member ids come from the global math/rand source (needs GODEBUG=randseednop=0)
 	synctest.Test(t, func(t *testing.T) {
 		defer func() {
@@ -1445,9 +1501,14 @@ func TestVF_C12_Machine(t *testing.T) {
 	rapid.Check(t, func(rt *rapid.T) {
 		env := c12DrawEnv(rt)
 		st.Eval()
-		res := c12Execute(t, env, c12Opts{excludeStableRejoin: exclude, focus: focus})
+		res := c12Execute(t, env, c12Opts{excludeStableRejoin: exclude, excludeMetaFault: vfkit.Known(c12FindingMetaErr), excludeGrowth: vfkit.Known(c12FindingGrowth), focus: focus})
 		for k, v := range res.classes {
 			st.ClassN(k, v)
+		}
+		for id, n := range res.excl {
+			for i := 0; i < n; i++ {
+				st.ExcludedCase(id)
+			}
 		}
 		for i := 0; i < res.excluded; i++ {
 			st.ExcludedCase(c12FindingStableRejoin)
@@ -1530,6 +1591,42 @@ func TestVF_C12_Witness(t *testing.T) {
 	if v := res.viol["PANIC"]; len(v) > 0 {
 		t.Fatalf("panic in witness: %v", v)
 	}
+	// store.Metadata fails once while the only member (leader) syncs: a 4-partition topic
+	envM := c12Env{Seed: 7, CleanupMs: 1000, Parts: [3]int{4, 0, 0}, Script: []c12Act{
+		{Kind: c12KJoinNew, Sub: 1, Sess: 10000, Reb: 10000},
+		{Kind: c12KRound, GenOff: 1},
+	}}
+	st.Eval()
+	rm := c12Execute(t, envM, c12Opts{})
+	failsM := len(rm.viol["C12"]) > 0
+	whatM := "not reproduced"
+	if failsM {
+		whatM = rm.viol["C12"][0]
+	}
+	st.KnownResult(c12FindingMetaErr, failsM, whatM)
+	t.Logf("witness %s still fails: %v\n%s", c12FindingMetaErr, failsM, strings.Join(rm.trace, "\n"))
+	// topic grows from 2 to more partitions, the leader re-joins (same subscription) and syncs
+	envG := c12Env{Seed: 7, CleanupMs: 1000, Parts: [3]int{2, 0, 0}, Script: []c12Act{
+		{Kind: c12KJoinNew, Sub: 1, Sess: 10000, Reb: 10000},
+		{Kind: c12KSync, Who: 0, GenSel: 0},
+		{Kind: c12KTopic, Topic: 0, Part: 1},
+		{Kind: c12KRejoin, Who: 0, SubMode: 0, Reb: 10000},
+		{Kind: c12KSync, Who: 0, GenSel: 0},
+	}}
+	st.Eval()
+	rg := c12Execute(t, envG, c12Opts{})
+	failsG := len(rg.viol["C12"]) > 0
+	whatG := "not reproduced"
+	if failsG {
+		whatG = rg.viol["C12"][0]
+	}
+	st.KnownResult(c12FindingGrowth, failsG, whatG)
+	t.Logf("witness %s still fails: %v\n%s", c12FindingGrowth, failsG, strings.Join(rg.trace, "\n"))
+	for _, rr := range []*c12Result{rm, rg} {
+		if v := rr.viol["PANIC"]; len(v) > 0 {
+			t.Fatalf("panic in witness: %v", v)
+		}
+	}
 }
 
 var c12Sessions = []int{0, 3000, 5000, 10000, 30000}
@@ -1562,6 +1659,7 @@ func c12DrawActFields(t *rapid.T, ap *c12Act) {
 		a.GenOff = rapid.IntRange(0, 1).Draw(t, "genoff")
 	case c12KLeave:
 		a.Who = rapid.IntRange(0, 23).Draw(t, "who")
+		a.GenOff = rapid.SampledFrom([]int{0, 0, 1}).Draw(t, "v4shape")
 	case c12KCommit:
 		a.Who = rapid.IntRange(0, 23).Draw(t, "who")
 		a.GenSel = rapid.SampledFrom(c12Gensel).Draw(t, "gensel")
@@ -1588,6 +1686,7 @@ func c12DrawActFields(t *rapid.T, ap *c12Act) {
 		a.Part = rapid.IntRange(0, 3).Draw(t, "staleleave")
 		a.Sub = rapid.IntRange(0, 15).Draw(t, "resub")
 		a.Nth = rapid.SampledFrom([]int{0, 0, 0, 0, 1, 2, 3, 4}).Draw(t, "wfault")
+		a.GenOff = rapid.SampledFrom([]int{0, 0, 0, 0, 1}).Draw(t, "metafault")
 	case c12KRestart:
 		a.TMode = rapid.SampledFrom([]int{0, 0, 1, 1, 2, 3}).Draw(t, "first")
 		a.Who = rapid.IntRange(0, 23).Draw(t, "who")
